@@ -591,6 +591,10 @@ class DataMixin:
                     ex.assume((n == 0) == (h.dom == EMPTYSET))
                     return VInt(n)
                 return VInt(size)
+        if isinstance(v, VIterView) and v.kind in ('keys', 'values', 'items') and isinstance(v.base, VRef) and \
+                isinstance(ex.heap[v.base.addr], (HSymDict, HDict)):
+            # a view has as many entries as its dictionary
+            return self.length(v.base, node)
         m = self.method_model(v, '__len__')
         if m is not None:
             return m(ex, [v], {})
